@@ -11,6 +11,11 @@ from .base import get_ctx, immutable_reprs
 FAMILIES_FOR_SCALAR = (None, "sequence", "mapping", "set")
 
 
+def keyed_tasks(ctx):
+    """Element helpers of list / set attributes whose container is a KeyedList / KeyedSet."""
+    return [(hid, "given", None, "keyed") for hid, h in ctx.helpers.items() if h.family in ("sequence", "set")]
+
+
 def helper_tasks(ctx, shapes=("given", "default"), families=True, all_families=None):
     out = []
     allf = ctx.thorough if all_families is None else all_families
@@ -45,6 +50,26 @@ def set_family(cfg, ctx, fam):
     cfg.attr_hooks.insert(0, hook)
 
 
+KEYED_FIELDS = {"_list", "_dict", "_key", "_type", "enforce_item_equivalence"}
+
+
+def set_collection_kind(cfg, ctx, family, kind):
+    """kind 'keyed': the attribute's container is the in-repo KeyedList / KeyedSet, so container
+    operations are interpreted through its own (and inherited mixin) bodies instead of list/set primitives."""
+    if kind != "keyed" or family not in ("sequence", "set"):
+        return
+    ci = ctx.p.find_class("KeyedList" if family == "sequence" else "KeyedSet")
+
+    def fn(tok):
+        t = tuple(x for x in tok if x not in ("copy", "shallowcopy"))
+        if len(t) == 2 and t[0] == "self" and str(t[1]).startswith(".{"):
+            return ci
+        return None
+    cfg.sym_class_fns.append(fn)
+    prev = cfg.sym_method_filter
+    cfg.sym_method_filter = lambda c_, name: (name not in KEYED_FIELDS) if c_ is ci else prev(c_, name)
+
+
 def set_reducer(keep):
     """Trace reducer keeping the *set* of events selected (and normalised) by keep(ev) -> ev|None."""
     def red(trace, ev):
@@ -62,6 +87,10 @@ def set_reducer(keep):
 def run(task, reducer, *, inplace=False, frozen=False, do_not_copy=False, initializing=False,
         attr_do_not_copy=None, deepcopy_mode="fresh", setattr_mode="event", loop_unroll=1,
         extra_facts=None, configure=None, if_=True):
+    kind = None
+    if len(task) == 4:
+        hid, shape, fam, kind = task
+        task = (hid, shape, fam)
     hid, shape, fam = task
     ctx = get_ctx()
     h = ctx.helpers[hid]
@@ -71,6 +100,7 @@ def run(task, reducer, *, inplace=False, frozen=False, do_not_copy=False, initia
         cfg.loop_unroll = loop_unroll
         cfg.guard_pred = lambda k: k[0] == "immutable"    # never merged away: rules rely on it
         set_family(cfg, ctx, fam)
+        set_collection_kind(cfg, ctx, h.family, kind)
         if configure:
             configure(cfg)
     facts = dict(extra_facts or {})
@@ -93,7 +123,7 @@ def run(task, reducer, *, inplace=False, frozen=False, do_not_copy=False, initia
             "desc": describe_path(o, 10),
             "notes": list(o.state.notes),
         })
-    return {"task": task, "entry": f"{hid}[{shape},{fam}]", "paths": paths,
+    return {"task": task, "entry": f"{hid}[{shape},{fam}{',' + kind if kind else ''}]", "paths": paths,
             "functions": sorted(it.functions_entered), "call_sites": len(it.call_sites),
             "unclassified": sorted(it.unclassified)}
 
